@@ -33,7 +33,7 @@ theorem NameOk.cases {b : Bytes} (h : NameOk b) :
 theorem checksOk_eq (H : Hashes) (c : Bytes) (x : Cks) : StoreSpec.checksOk H c x = FsStore.checksOk H c x := rfl
 
 /-- `put_object` may be compared with the store: names agree, the side-file names fit [else
-    fs:long-key-internal-error: since 4f3e079 such a key is refused with `KeyTooLongError` before anything is written — the
+    fs:long-key-internal-error: since c3dcb24 such a key is refused with `KeyTooLongError` before anything is written — the
     store accepts it], the key is canonical [fs:key-normalised, fs:directory-key] and, when the bucket exists,
     its path is free (prefix-freedom; fs:leftover-directory) -/
 def PutOk (s : State) (b k : Bytes) : Prop :=
@@ -186,7 +186,7 @@ theorem put_refines (H : Hashes) (dl : Nat) {s : State} (hi : Inv s) {b k c : By
   · -- a name both refuse
     simp [step, StoreSpec.step, hbd, hbo, hi]
 
-/-- 4f3e079: `put_object` of a plain key whose side files cannot be named (`sideTooLong`) changes nothing — whatever the state,
+/-- c3dcb24: `put_object` of a plain key whose side files cannot be named (`sideTooLong`) changes nothing — whatever the state,
     the bucket, the body — and answers an error; in an existing bucket, for a key the backend maps into it, the error is
     `KeyTooLongError` (before the repair the object file was written, then the request failed with `InternalError`) -/
 theorem put_long_key (H : Hashes) (dl : Nat) (s : State) {b k c : Bytes} {md : Option Meta} {cks : Cks}
